@@ -100,6 +100,7 @@ type State struct {
 	loops  map[string]*loopVisit
 	fresh  []freshObj // objects allocated on this path
 	held   map[string]bool
+	locks  map[string]int // number of acquisitions of a lock on this path
 	ghost  map[string]*Val // ghost variables
 	defers map[int][]deferRec
 	pathID string
@@ -134,6 +135,10 @@ func (s *State) clone() *State {
 	}
 	for k, v := range s.held {
 		n.held[k] = v
+	}
+	n.locks = make(map[string]int, len(s.locks))
+	for k, v := range s.locks {
+		n.locks[k] = v
 	}
 	for k, v := range s.ghost {
 		n.ghost[k] = v
